@@ -20,7 +20,7 @@ def _perform_read(E, obj, args, kwargs, st, node):
     s = st.copy()
     s.trace = ListV(s.trace.items + (("read", addr, size),))
     data = seqs.seq_slice(obj.fields["mem"], addr, addr + size)
-    return [(s, SeqV(size, data.elem, data.arrs, "bytes"), None)]
+    return [(s, SeqV(size, data.elem, data.arrs, "bytes", data.base), None)]
 
 
 def _perform_write(E, obj, args, kwargs, st, node):
@@ -37,9 +37,9 @@ def _perform_write(E, obj, args, kwargs, st, node):
     r = z3.Array(fresh_name("mem"), z3.IntSort(), z3.IntSort())
     a_t, n_t = to_int_term(addr), to_int_term(n)
     ops.define(r.decl().name(), z3.ForAll([j], z3.Select(r, j) == z3.If(z3.And(j >= a_t, j < a_t + n_t),
-                                                                         z3.Select(data.arrs[0], j - a_t), z3.Select(mem.arrs[0], j)),
+                                                                         z3.Select(data.arrs[0], seqs._off(data.base, j - a_t)), z3.Select(mem.arrs[0], seqs._off(mem.base, j))),
                                           patterns=[z3.Select(r, j)]))
-    newobj = obj.with_field("mem", SeqV(mem.length, mem.elem, [r], mem.kind))
+    newobj = obj.with_field("mem", SeqV(mem.length, mem.elem, [r], mem.kind, 0))
     return [(s, n, newobj)]
 
 
